@@ -13,7 +13,7 @@ use serde::{Deserialize, Serialize};
 use serde_json::{Value, json};
 
 use crate::refagg::{Publication, RECORD_DELAY, SIGN_DELAY};
-use crate::world::{ME, NSIGNERS, World};
+use crate::world::{ME, NSIGNERS, Stakes, World};
 
 #[derive(Clone, Copy, Debug, Serialize, Deserialize, PartialEq, Eq, Hash)]
 pub enum Ev {
@@ -234,7 +234,7 @@ pub async fn canon(w: &World) -> String {
         v
     };
     json!({
-        "st": st.to_string(), "e": cur, "i": tp.immutable_file_number, "b": *tp.chain_point.block_number,
+        "w": w.mode.label(), "st": st.to_string(), "e": cur, "i": tp.immutable_file_number, "b": *tp.chain_point.block_number,
         "inits": init_epochs, "stakes": stake_epochs, "signed": signed_beacons(w), "es": es, "agg": agg,
     })
     .to_string()
@@ -283,13 +283,18 @@ fn check_publications(pubs: &[Publication], out: &mut Vec<(&'static str, String,
 /// publication when it happens, the log-level clauses are evaluated at the end, then the nominal
 /// tail (all faults cleared, three more epochs) must make the signer sign again.
 pub fn replay(scratch: &Path, fixture: &MithrilFixture, history: &[Ev], tail: Tail) -> Outcome {
+    replay_in(scratch, fixture, history, tail, Stakes::Varying)
+}
+
+/// `replay` in the chosen world (see [`Stakes`]).
+pub fn replay_in(scratch: &Path, fixture: &MithrilFixture, history: &[Ev], tail: Tail, mode: Stakes) -> Outcome {
     let dir = fresh_dir(scratch);
     let rt = tokio::runtime::Builder::new_current_thread().enable_all().build().expect("tokio runtime");
     let hist_json = serde_json::to_value(history).unwrap();
     let res = rt.block_on(async {
         let timing = std::env::var("MC_TIMING").is_ok();
         let t_w = std::time::Instant::now();
-        let mut w = World::new(dir.clone(), fixture).await;
+        let mut w = World::new(dir.clone(), fixture, mode).await;
         if timing {
             eprintln!("  world built in {:.1}ms", t_w.elapsed().as_secs_f64() * 1e3);
         }
@@ -382,7 +387,7 @@ pub fn replay(scratch: &Path, fixture: &MithrilFixture, history: &[Ev], tail: Ta
             .map(|(key, what, step)| Violation {
                 key: key.to_string(),
                 what,
-                replay: json!({"history": hist_json, "failing_step": step, "log": log}),
+                replay: json!({"history": hist_json, "failing_step": step, "log": log, "world": mode.label()}),
             })
             .collect();
         let mut stats = BTreeMap::new();
@@ -483,7 +488,7 @@ pub fn reference_selfcheck(scratch: &Path, fixture: &MithrilFixture) -> Result<V
     let dir = fresh_dir(scratch);
     let rt = tokio::runtime::Builder::new_current_thread().enable_all().build().expect("tokio runtime");
     let res = rt.block_on(async {
-        let mut w = World::new(dir.clone(), fixture).await;
+        let mut w = World::new(dir.clone(), fixture, Stakes::Varying).await;
         let mut log = vec![];
         for ev in nominal(4, 0) {
             apply(&mut w, &ev, &mut log).await;
